@@ -291,7 +291,7 @@ class TextMixin:
             base = name.rsplit('/', 1)[0] + '/' if '/' in name else ''
             for i, line in enumerate(d[name]):
                 if isinstance(line, str) and line.strip().startswith('%include '):
-                    rel = line.strip()[len('%include '):].strip()
+                    rel = line.strip()[len('%include '):].strip().replace('$$', '$')
                     rec(join_rel(base, rel), depth + 1)
                 else:
                     flat.append((BASE + name, i + 1, line))
